@@ -2,16 +2,33 @@ package main
 
 import (
 	"fmt"
+	"strings"
 
+	"github.com/gopacket/gopacket"
 	"verif/harness/corpus"
+	"verif/harness/vh"
 )
 
 func main() {
-	fx := corpus.Load()
-	cs := corpus.TrailingLengthCases(fx, 12)
-	by := map[string]int{}
-	for _, c := range cs {
-		by[c.First.String()]++
+	n, pan := 0, map[string]int{}
+	for _, f := range corpus.Load() {
+		if !strings.Contains(strings.ToLower(f.Name), "lldp") && !strings.Contains(f.Name, "LinkLayerDiscovery") {
+			continue
+		}
+		for p := 0; p < len(f.Data); p++ {
+			for _, v := range []byte{0, 1, 2, 248, 249, 250, 255} {
+				d := append([]byte(nil), f.Data...)
+				d[p] = v
+				n++
+				_, site, pn := vh.Guard(func() {
+					pk := gopacket.NewPacket(d, f.First, gopacket.DecodeOptions{SkipDecodeRecovery: true})
+					pk.Layers()
+				})
+				if pn {
+					pan[vh.SiteSig(corpus.Repo(), site)]++
+				}
+			}
+		}
 	}
-	fmt.Println(len(fx), len(cs), by)
+	fmt.Println(n, pan)
 }
